@@ -91,6 +91,29 @@ IndexMapCovered ==
      /\ \E g \in Groups : g.kernel = k /\ g.indexmaps /\ ~g.p2sprefix
      /\ \E g \in Groups : g.kernel = k /\ g.indexmaps /\ g.noncontig /\ g.variant = "random"
      /\ \A g \in Groups : g.kernel = k => g.indexmaps
+(* Kernels that receive both the number of primitive atoms and of supercell *)
+(* atoms must be exercised in every relation between num_patom and the       *)
+(* number N = num_satom / num_patom of lattice points: "lt" num_patom < N,   *)
+(* "eq" num_patom = N, "gt" num_patom > N >= 2 (then p2s_map = 0, N, 2N, ..  *)
+(* has entries BELOW num_patom: a confusion of the compact row i with the    *)
+(* full row p2s[i] hits another atom's row only here), "one" N = 1.  For the *)
+(* kernels with a full and a compact layout, "gt" in both layouts.           *)
+ShapeKernels == {"transform_dynmat_to_fc", "dynamical_matrices_with_dd_openmp_over_qpoints",
+                 "derivative_dynmat", "perm_trans_symmetrize_compact_fc", "transpose_compact_fc",
+                 "gsv_set_smallest_vectors_sparse", "gsv_set_smallest_vectors_dense"}
+TwoLayoutKernels == {"transform_dynmat_to_fc", "dynamical_matrices_with_dd_openmp_over_qpoints", "derivative_dynmat"}
+ShapeCovered ==
+  /\ \A k \in ShapeKernels \cap Kernels : \A c \in {"lt", "eq", "gt", "one"} :
+        (* with N = 1 a compact array has the full shape and the Python layer calls the full-layout kernel *)
+        (c = "one" /\ k \in {"perm_trans_symmetrize_compact_fc", "transpose_compact_fc"}) \/
+        /\ \E g \in Groups : g.kernel = k /\ g.shapecls = c /\ g.variant = "recorded"
+        /\ (k \notin {"gsv_set_smallest_vectors_sparse", "gsv_set_smallest_vectors_dense"}) =>
+              \E g \in Groups : g.kernel = k /\ g.shapecls = c /\ g.variant = "random"
+  /\ \A k \in TwoLayoutKernels \cap Kernels :
+        /\ \E g \in Groups : g.kernel = k /\ g.shapecls = "gt" /\ ~g.p2sprefix /\ g.variant = "random"
+        /\ \E g \in Groups : g.kernel = k /\ g.shapecls = "gt" /\ g.p2sprefix /\ g.variant = "random"
+  /\ \A g \in Groups : (g.kernel \in ShapeKernels) = (g.shapecls # "na")
+
 (* the Gonze-Lee reciprocal dipole-dipole kernel must be exercised where a   *)
 (* K = G + q vanishes (q = 0 or q = a reciprocal lattice point) WITH a       *)
 (* q-direction and with its own use_openmp flag on, both as recorded and     *)
@@ -157,6 +180,7 @@ ImplKernelKnown           == InCheck => ReqKernelKnown(grp)
 ImplGlue                  == (phase = "glue") => GlueOK(grp)
 ImplAllKernelsCovered     == (phase = "cover") => Covered
 ImplIndexMapCoverage      == (phase = "cover") => IndexMapCovered /\ LimitCovered
+ImplShapeCoverage         == (phase = "cover") => ShapeCovered
 
 (* Every scalar mode argument of every kernel (`classical`, `use_openmp`,    *)
 (* `is_nac`, `is_nac_q_zero`, `use_Wang_NAC`, `initialize`, `level`,         *)
